@@ -34,6 +34,7 @@ def twelve_oracle(owner_branch, own_branch):
 
 def run(ctx):
     from rules import shared
+    ctx.include('effect_inventory', shared.effect_inventory)   # no new process-wide mutable state (MIR statics inventory)
     ctx.include('month_records', shared.month_records)   # leap table, solstice anchor, month memo, memo cells (shared, cached per source hash)
     I = ctx.interp(fuel=30000000)
     t = T(I)
